@@ -211,7 +211,8 @@ func (s *script) dump(opname string) {
 	ncalls := len(s.calls)
 	s.mu.Unlock()
 	if ncalls == 0 {
-		for _, rq := range s.reqs {
+		for id := int64(1); id <= s.nextID; id++ {
+			rq := s.reqs[id]
 			if !rq.done {
 				s.h.Viol("request-stuck", "after %s: request %d has not returned although no load is in flight", opname, rq.id)
 			}
@@ -429,12 +430,9 @@ func (s *script) runCase(i int) {
 			for j := range times {
 				times[j] = a + int64(r.Intn(int(b-a)))
 			}
-			if r.Chance(1, 3) && len(s.reqs) > 0 { // aim at something that was requested
-				for _, rq := range s.reqs {
-					if rq.to > rq.from {
-						times[0] = rq.from + int64(r.Intn(int(rq.to-rq.from)))
-					}
-					break
+			if r.Chance(1, 3) && s.nextID > 0 { // aim at something that was requested
+				if rq := s.reqs[1+int64(r.Intn(int(s.nextID)))]; rq != nil && rq.to > rq.from {
+					times[0] = rq.from + int64(r.Intn(int(rq.to-rq.from)))
 				}
 			}
 			sort.Slice(times, func(i, j int) bool { return times[i] < times[j] })
@@ -522,7 +520,8 @@ func (s *script) runCase(i int) {
 		time.Sleep(time.Millisecond)
 		s.opFin(id, true)
 	}
-	for _, rq := range s.reqs {
+	for id := int64(1); id <= s.nextID; id++ {
+		rq := s.reqs[id]
 		if !rq.done {
 			h.Viol("request-never-returns", "request %d did not return after every load finished", rq.id)
 		}
@@ -794,6 +793,12 @@ func freeRunning(h *verifx.H) {
 				buf := make([]byte, 16<<20)
 				os.WriteFile(h.Arg, buf[:runtime.Stack(buf, true)], 0o644)
 			}
+			hi := f.v.Info()
+			nb := 0
+			for _, st := range steps {
+				nb += len(f.v.Dump(st, false))
+			}
+			h.Note("hang state: size=%d buckets=%d(%d listed) chunks=%d max=%d soft=%d inflightBytes=%d inflightReqs=%d", hi.Size, hi.Buckets, nb, hi.Chunks, hi.MaxSize, hi.MaxSizeSoft, hi.InflightBytes, hi.InflightReqs)
 			h.Obs("hang")
 			h.Viol("request-never-returns", "free-running case: workers still blocked after 60 s (a case normally takes well under 2 s)")
 			for _, v := range f.viols {
@@ -803,6 +808,23 @@ func freeRunning(h *verifx.H) {
 			// the blocked goroutines (and a possibly spinning trim goroutine) are left behind: stop here
 			h.Done()
 			os.Exit(0)
+		}
+		// a Get returns as soon as its own load has answered; wait until the loadChunks goroutines have
+		// published as well (condition polling, not a timing assumption)
+		deadline := time.Now().Add(hangAfter)
+		for {
+			f.mu.Lock()
+			for id := range f.publ {
+				if f.v.LoadChunksDone(id) {
+					delete(f.publ, id)
+				}
+			}
+			left := len(f.publ)
+			f.mu.Unlock()
+			if left == 0 || time.Now().After(deadline) {
+				break
+			}
+			time.Sleep(200 * time.Microsecond)
 		}
 		// cache emptied with nothing in flight: every water level is back to zero
 		f.v.SetLimits(0, 0, 0)
